@@ -75,7 +75,9 @@ func (e *fnEnc) assumeGlobalFacts(st *state) {
 		func() {
 			defer func() {
 				if r := recover(); r != nil {
-					e.structureError(fmt.Sprintf("global fact [%s]: %v", g.Clause.Label, r))
+					// a fact about a package that this run did not load is irrelevant here
+					// (dropping an assumption can only make obligations harder)
+					e.V.Warnings = append(e.V.Warnings, fmt.Sprintf("global fact [%s] skipped: %v", g.Clause.Label, r))
 				}
 			}()
 			en := &env{e: e, st: st, old: st, names: map[string]tval{}}
